@@ -51,6 +51,16 @@ pub fn check_ltwh(c: &Ltwh) -> CaseResult {
     ensure!((back.width as f64 - c.w as f64).abs() <= 4.0 * ulp32(c.w) as f64, "ltwh-roundtrip", "width {} -> {}", c.w, back.width);
     ensure!(back.height == c.h, "ltwh-roundtrip", "height {} -> {}", c.h, back.height);
     ensure!(back.confidence == c.conf, "ltwh-roundtrip", "confidence {} -> {}", c.conf, back.confidence);
+    // every entry point of the backward conversion gives the same box
+    let by_value = BoundingBox::try_from(u.clone()).map_err(|e| Fail::new("ltwh-back-err", format!("by value: {:?}", e)))?;
+    let into: BoundingBox = u.clone().try_into().map_err(|e| Fail::new("ltwh-back-err", format!("try_into: {:?}", e)))?;
+    for (n, x) in [("TryFrom<Universal2DBox> (by value)", &by_value), ("try_into", &into)] {
+        ensure!(x.left == back.left && x.top == back.top && x.width == back.width && x.height == back.height && x.confidence == back.confidence,
+            "ltwh-back-variants", "{} gives {:?}, the by-reference conversion {:?}", n, x, back);
+    }
+    let fwd_value = Universal2DBox::from(bb.clone());
+    ensure!(fwd_value.xc == u.xc && fwd_value.yc == u.yc && fwd_value.angle == u.angle && fwd_value.aspect == u.aspect && fwd_value.height == u.height && fwd_value.confidence == u.confidence,
+        "ltwh-constructors", "From<BoundingBox> (by value) differs from as_xyaah: {:?} vs {:?}", fwd_value, u);
     // a rotated box has no ltwh form
     let rot = u.clone().rotate(0.3);
     ensure!(BoundingBox::try_from(&rot).is_err(), "ltwh-rotated", "rotated box converted to ltwh");
